@@ -18,6 +18,24 @@ SuperCollider pattern documentation; no sc3 import).  Compared per case:
 
 On a mismatch the smallest sub-expression that mismatches on its own is blamed
 and gives the mechanism key.
+
+Round 7b (coverage-driven widening).  The expression language also has Pwalk
+(deterministic steps), Platch, Pwhile, Pgate (input events with a gate entry
+that changes from pull to pull), Pprorate, Pproduct, Ptrace / Pattern.trace(),
+Pvalue, patterns made with the `pattern` decorator (arguments pulled with
+next(): Stream.__iter__, Stream.__next__, ValueStream.__next__), dict items
+(DictionaryStream: composed with the input event), the driver
+iter(stream(pattern)), and the random leaves Plprand, Phprand, Pmeanrand, Pbeta,
+Pcauchy, Pgauss, Ppoisson, Pexprand, Pgbrown, Pprob (documented range / length /
+step) and Pfsm (every transition allowed by the state table).  The blueprint
+clause is checked for EVERY Pattern subclass the library defines by the `blue`
+shards (vf/c13_blue.py: run-time discovery, canonical and generated constructor
+arguments, second stream, alternating streams, reset, re-embedding through
+Pn / Pseq, one stream per OS thread, snapshot; event patterns, Pmono inside a
+recording player, time patterns under a harness-set logical time), which also
+observe objects as streams (ValueStream / DictionaryStream), what Ptrace
+prints, iter() of a running stream, and a seeded stream next to an unseeded
+consumer in another thread.
 """
 
 from vf.common import iter_cases, case_rng, h64, split, short_tb, tb_sites
@@ -29,7 +47,11 @@ RULE = ("seeded typed random pattern expressions of depth 1-5 over Pseq, Pser, "
         "Preject, Pif, Pwrap, Pseed-wrapped Pwhite/Prand/Pxrand/Pshuffle/Pbrown "
         "and unary/binary/n-ary operator patterns (infix, reflected, method and "
         "builtin call forms), finite and infinite repeats, pattern-valued numeric "
-        "arguments, nested lists as items; first 64 values + end position "
+        "arguments, nested lists as items; since round 7b also Pwalk, Platch, "
+        "Pwhile, Pgate, Pprorate, Pproduct, Ptrace, Pvalue, decorator-made "
+        "patterns, dict items and ten more random leaves + Pfsm; blueprint "
+        "shards: every Pattern subclass (69) with canonical and generated "
+        "arguments; first 64 values + end position "
         "compared with the denotational model; a case is non-trivial when the "
         "expression nests at least 2 levels, uses at least 2 distinct classes "
         "and the model sequence has at least 2 values; distinct = hash of the "
@@ -85,8 +107,74 @@ ASSUMPTIONS = [
     "which no documentation fixes); a float series is not generated as Pswitch "
     "index / Pstutter count / Pclump size (the library raises there, which is "
     "not a documented outcome either way)",
-    "event patterns, Pkey, Ptime, Pchain and time patterns are C14's; stream "
-    "methods collect/select/reject/++ do not exist in the port"]
+    "event patterns, Pkey, Ptime, Pchain and time patterns are C14's as far as "
+    "their sequences go (here only the blueprint clause); stream "
+    "methods collect/select/reject/++ do not exist in the port",
+    "round 7b, denotations beyond the quantifier's class list only where the "
+    "documentation decides: Pwhile (func of the input value, evaluated at the "
+    "start and whenever the pattern is exhausted), Platch (Pclutch help), "
+    "Pgate (Pgate help; the input event's entry must be True), Pprorate "
+    "(Prorate help: p * v, (1 - p) * v or one part per list element), Pproduct "
+    "(PstepNfunc help: nested iteration, func(list of values)), Ptrace "
+    "(identity + one printed record per value), Pvalue (the value embedded in "
+    "place), the `pattern` decorator (its doc string: the generator function's "
+    "values; arguments pulled with next() see no input value), dict items "
+    "(Event.next / composeEvent: a copy of the input dict updated with the "
+    "item; only None or dict input values), Pwalk ONLY for integer steps from "
+    "a pattern that does not end, directions 1 / -1 from a pattern that does "
+    "not end, start inside the list, and as long as no boundary is crossed "
+    "with a negative step value (there 'use the step as is' and the port's "
+    "|step| * direction differ): all that is 'no verdict' (OutOfDomain)",
+    "NOT judged denotationally (guesswork otherwise): Pfsm beyond 'every "
+    "transition is in the table, starts in an entry state, ends where the table "
+    "allows, at most `repeats` runs'; Pdfsm, Pavaroh, the distribution of any "
+    "random pattern (only range, length, number kind, Pbrown/Pgbrown step)",
+    "blueprint shards: equality of normalised values (dicts by sorted items, "
+    "floats exactly, foreign objects by repr) taken at delivery; node_id of "
+    "Pmono events is fresh per stream by design and dropped; an event pattern "
+    "embedded without input event yields nothing by design, so event patterns "
+    "are only driven through stream() / iter() unless the instance has an "
+    "input event; Prout is only given generator functions; time patterns see a "
+    "harness-set NRT logical time (dyadic, base + j / 4) and frozen time in the "
+    "thread phase; Pgate / Pkey / Pn-with-key instances whose input event "
+    "changes with the pull index skip the re-embedding comparison",
+    "Pwalk(list, 0): once that defect is seen in an expression every other "
+    "observation on the same expression is attributed to it (the walk is an "
+    "unseeded random one); such expressions are not used in the threads and "
+    "blueprint shards"]
+NEW_NODES = ('Pwalk', 'Platch', 'Pwhile', 'Ptrace', 'Pvalue', 'Pgate', 'Pprorate',
+             'Pproduct', 'Pgen')
+NEW_LEAVES = ('Plprand', 'Phprand', 'Pmeanrand', 'Pbeta', 'Pcauchy', 'Pgauss',
+              'Ppoisson', 'Pexprand', 'Pgbrown', 'Pprob', 'Pfsm')
+# classes of the anchored files no workload entered before round 7b: each must
+# be instantiated by the blueprint shards
+BLUE_NAMED = ('Pwalk', 'Pfsm', 'Pdfsm', 'Pgate', 'Platch', 'Pwhile', 'Ptrace',
+              'Pprorate', 'Pavaroh', 'Pproduct', 'Pvalue', 'Pprob', 'Plprand',
+              'Phprand', 'Pmeanrand', 'Pbeta', 'Pcauchy', 'Pgauss', 'Ppoisson',
+              'Pexprand', 'Pgbrown', 'pattern()', 'Pmono', 'Ppar', 'Pstep', 'Pseg')
+
+
+def _mins(scale):
+    d = {'class_' + n: 250 * scale for n in NEW_NODES}
+    d.update({'class_rand:' + n: 8 * scale for n in NEW_LEAVES})
+    d.update({'blue_' + n: 8 * scale for n in BLUE_NAMED})
+    d.update({'driver_iterstream': 400 * scale,
+              'max_blueprint_classes_discovered': 60,
+              'blueprint_instances': 1200 * scale,
+              'blueprint_streams_compared': 1200 * scale,
+              'blueprint_interleaved_streams_compared': 2500 * scale,
+              'blueprint_reset_streams_compared': 1000 * scale,
+              'blueprint_reembeddings_compared': 2500 * scale,
+              'blueprint_thread_streams_compared': 3000 * scale,
+              'blueprint_snapshots_compared': 1200 * scale,
+              'coercion_DictionaryStream': 30 * scale,
+              'coercion_ValueStream': 30 * scale,
+              'trace_records_compared': 200 * scale,
+              'seeded_streams_next_to_unseeded_consumer': 60 * scale,
+              'iter_of_a_running_stream': 300 * scale})
+    return d
+
+
 MIN_COUNTERS = {
     'quick': {'sequences_compared': 8000, 'interleaved_pairs_compared': 8000,
               'snapshots_compared': 8000, 'values_compared': 80000,
@@ -99,20 +187,25 @@ MIN_COUNTERS = {
               'class_Placep': 300,
               'concurrent_seeded_streams_compared': 400,
               'concurrent_seeded_values_compared': 20000},
-    'thorough': {'sequences_compared': 500000,
-                 'interleaved_pairs_compared': 500000,
-                 'snapshots_compared': 500000, 'values_compared': 5000000,
-                 'random_leaf_runs': 20000, 'infinite_expressions': 50000,
-                 'ended_streams_polled_again': 200000,
-                 'reset_streams_compared': 200000, 'class_Placep': 10000,
-                 'inval_dependent_sequences_all': 10000,
+    # thorough is bounded by time (11 expression shards of 450 s since round 7b,
+    # 3 went to the blueprint clause); the minimums are what a heavily loaded
+    # machine (load average 80-100 on 16 cores) still reaches with a margin
+    'thorough': {'sequences_compared': 300000,
+                 'interleaved_pairs_compared': 300000,
+                 'snapshots_compared': 300000, 'values_compared': 4000000,
+                 'random_leaf_runs': 20000, 'infinite_expressions': 40000,
+                 'ended_streams_polled_again': 150000,
+                 'reset_streams_compared': 150000, 'class_Placep': 10000,
+                 'inval_dependent_sequences_all': 4000,
                  'inval_dependent_sequences_next': 20000,
-                 'series_with_omitted_arguments': 50000,
-                 'sequences_compared_int_float_strict': 400000,
+                 'series_with_omitted_arguments': 25000,
+                 'sequences_compared_int_float_strict': 250000,
                  # the threads shards slow down most on a loaded machine
                  'concurrent_seeded_streams_compared': 5000,
                  'concurrent_seeded_values_compared': 500000},
 }
+MIN_COUNTERS['quick'].update(_mins(1))
+MIN_COUNTERS['thorough'].update(_mins(5))
 
 N = 64
 
@@ -121,8 +214,8 @@ def plan(tier, seed):
     # 16 shards = one wave on 16 cores; the thorough tier is bounded by time
     # (secs per shard), its case numbers are upper limits
     quick = tier == 'quick'
-    total = 48000 if quick else 7_000_000
-    parts = 16 if quick else 14
+    total = 32000 if quick else 7_000_000
+    parts = 16 if quick else 11
     secs = 45 if quick else 450
     shards = [{'name': f'expr{p}', 'mode': 'nrt', 'kind': 'expr',
                'first_case': f, 'n': n, 'secs': secs, 'hard_timeout': secs + 150}
@@ -130,6 +223,12 @@ def plan(tier, seed):
     nthr = 500 if quick else 40000
     for p, (f, n) in enumerate(split(nthr, 2)):
         shards.append({'name': f'threads{p}', 'mode': 'nrt', 'kind': 'threads',
+                       'first_case': f, 'n': n, 'secs': secs,
+                       'hard_timeout': secs + 150})
+    # blueprint clause over every Pattern subclass (vf/c13_blue.py)
+    nblue = 2100 if quick else 400000
+    for p, (f, n) in enumerate(split(nblue, 3)):
+        shards.append({'name': f'blue{p}', 'mode': 'nrt', 'kind': 'blue',
                        'first_case': f, 'n': n, 'secs': secs,
                        'hard_timeout': secs + 150})
     return shards
@@ -156,6 +255,10 @@ CASE = {'inval': None, 'leaves': None}     # context of the running case
 
 PDROP_KEY = 'C13/sequence-differs/Pdrop/dropped-value-passed-on-as-input-value'
 PROUT_KEY = 'C13/sequence-differs/Prout/embedded-ignores-later-input-values'
+PPRODUCT_KEY = 'C13/sequence-differs/Pproduct/input-values-not-handed-on'
+PPRODUCT_ALIAS_KEY = 'C13/sequence-differs/Pproduct/value-list-reused-for-every-value'
+PWALK_ZERO_KEY = 'C13/sequence-differs/Pwalk/step-zero-replaced-by-random-default'
+PGEN_KEY = 'C13/sequence-differs/pattern-decorator/input-values-not-handed-on'
 
 
 def inval_mechanism(node, exp, exp_ended, how, inval):
@@ -170,8 +273,23 @@ def inval_mechanism(node, exp, exp_ended, how, inval):
         cands.append(({'Pdrop'}, [PDROP_KEY]))
     if names & {'Prout', 'ProutI'}:
         cands.append(({'Prout'}, [PROUT_KEY]))
-    if len(cands) == 2:
-        cands.append(({'Pdrop', 'Prout'}, [PDROP_KEY, PROUT_KEY]))
+    # (the two input-value mechanisms can only explain something when there
+    # are input values: any other defect of these classes keeps its own key)
+    with_inval = getattr(inval, 'base', inval) is not None
+    if 'Pproduct' in names:
+        if with_inval:
+            cands.append(({'Pproduct-inval'}, [PPRODUCT_KEY]))
+        if any(n[0] == 'Pproduct' and n[1] is None for n in mp.walk(node)):
+            cands.append(({'Pproduct-alias'}, [PPRODUCT_ALIAS_KEY]))
+    if 'Pgen' in names and with_inval:
+        cands.append(({'Pgen'}, [PGEN_KEY]))
+    # single mechanisms first, then the smallest combination that explains it
+    import itertools
+    singles = list(cands)
+    for r in range(2, len(singles) + 1):
+        for combo in itertools.combinations(singles, r):
+            cands.append((set().union(*(c[0] for c in combo)),
+                          [k for c in combo for k in c[1]]))
     for rep, keys in cands:
         cb.REPAIR.clear()
         cb.REPAIR.update(rep)
@@ -189,6 +307,15 @@ def inval_mechanism(node, exp, exp_ended, how, inval):
     return None
 
 INVAL_NODES = ('PfuncnI', 'ProutI', 'PcollectI', 'PlazyI')
+
+
+def zero_walk(node):
+    """The expression contains Pwalk(list, 0, ...): the library takes steps=0
+    for "no steps given" and walks at random (unseeded), so anything observed
+    on such an expression is that one mechanism."""
+    from vf import model_patterns as mp
+    return any(n[0] == 'Pwalk' and not mp.isnode(n[2]) and n[2] == 0
+               for n in mp.walk(node))
 
 
 def seq_key(bn, bk, ctx):
@@ -213,6 +340,8 @@ def seq_key(bn, bk, ctx):
                                 'embedded-ignores-later-input-values')
         if inval.varies() and bn[0] == 'ProutI':
             return 'C13/sequence-differs/Prout/embedded-ignores-later-input-values'
+    if zero_walk(bn):
+        return PWALK_ZERO_KEY
     if pslide_negative(bn):
         # one mechanism (no lower bound test), several symptoms
         return 'C13/sequence-differs/Pslide/nowrap-position-below-zero'
@@ -351,8 +480,16 @@ def blame(node, leaves, limit=None, inval=None, how='iter'):
     except (mp.OutOfFuel, mp.OutOfDomain, LeafBroken):
         try:
             kind, exp, got, exc = check_node(node, leaves, how, N, inval)
-        except (mp.OutOfFuel, mp.OutOfDomain, LeafBroken):
+        except cb.RealTimeout:
+            raise
+        except Exception:
             return None
+    except cb.RealTimeout:
+        raise
+    except Exception:
+        # the model cannot evaluate this sub-expression on its own over the
+        # longer prefix (ill-typed beyond the first values): no blame here
+        return None
     if kind:
         return node, kind, exp, got, exc
     return None
@@ -362,6 +499,9 @@ def run_shard(spec, acc):
     from vf import model_patterns as mp, c13_gen as gen, c13_build as cb
     if spec['shard'].get('kind') == 'threads':
         return run_threads(spec, acc)
+    if spec['shard'].get('kind') == 'blue':
+        from vf import c13_blue
+        return c13_blue.run_blue(spec, acc)
     leaves = Leaves(acc)
     for i in iter_cases(spec):
         leaves.case = i
@@ -374,6 +514,16 @@ def run_shard(spec, acc):
             # drivers that cannot pass one)
             inval = mp.Inval(rng.choice([None, None, 7, 2.5, {'k': 1}]),
                              rng.choice([0, 0, 1, -2]))
+            need_gate, has_dicts = gen.needs(cand)
+            if need_gate or (has_dicts and not isinstance(inval.base, dict)
+                             and (inval.base is not None or rng.random() < 0.5)) \
+                    or (isinstance(inval.base, dict) and rng.random() < 0.3):
+                # Pgate reads the entry 'g' of an input event; dict items are
+                # composed with an input event (or stand alone)
+                gate = [rng.choice([True, True, False, False, None])
+                        for _ in range(rng.randint(1, 7))]
+                inval = mp.Inval({'k': rng.choice([1, 3, -2])}, inval.delta,
+                                 gate if rng.random() < 0.85 else None)
             try:
                 exp, exp_ended = mp.take(cand, N, leaves=leaves, inval=inval)
             except mp.OutOfFuel:
@@ -416,7 +566,8 @@ def run_shard(spec, acc):
         if len(exp) == 0:
             acc.count('empty_sequences')
 
-        how = rng.choice(['iter', 'next', 'embed', 'all'] if inval.base is None
+        how = rng.choice(['iter', 'iterstream', 'next', 'embed', 'all']
+                         if inval.base is None
                          else ['next', 'embed'] if inval.varies()
                          else ['next', 'embed', 'all', 'all'])
         if how == 'all' and not exp_ended:
@@ -431,7 +582,8 @@ def run_shard(spec, acc):
                     acc.count('driven_with_non_None_inval')
                     if inval.varies():
                         acc.count('driven_with_inval_changing_per_pull')
-                    if any(n_[0] in ('PfuncnI', 'ProutI', 'PcollectI', 'PlazyI')
+                    if any(n_[0] in ('PfuncnI', 'ProutI', 'PcollectI', 'PlazyI',
+                                     'Pwhile', 'Pgate')
                            for n_ in mp.walk(node)) and len(exp) >= 2:
                         acc.count('inval_dependent_sequences_' + how)
                 got, got_ended, exc = cb.real_take(pat, N, how, inval)
@@ -451,8 +603,13 @@ def run_shard(spec, acc):
                         bn, bk, bexp, bgot, bexc = b
                         ctx = ''
                     key = seq_key(bn, bk, ctx)
-                    mech = inval_mechanism(node, exp, exp_ended, how, inval)
-                    if mech:
+                    # (an unseeded random walk agrees or not by chance: no
+                    # classification by rebuilding)
+                    mech = None if zero_walk(node) else \
+                        inval_mechanism(node, exp, exp_ended, how, inval)
+                    if zero_walk(node):
+                        key = PWALK_ZERO_KEY
+                    elif mech:
                         for extra in mech[1:]:
                             acc.violation(extra, {'case': i, 'expression': text,
                                                   'input_values': repr(inval)})
@@ -483,7 +640,11 @@ def run_shard(spec, acc):
                             if k2:
                                 bad = k2
                                 break
-                    if bad and inval.varies() and any(
+                    if bad and zero_walk(node):
+                        acc.violation(PWALK_ZERO_KEY,
+                                      {'case': i, 'expression': text, 'fresh': got[:24],
+                                       'stream1': o1[:24], 'stream2': o2[:24]})
+                    elif bad and inval.varies() and any(
                             n_[0] == 'ProutI' for n_ in mp.walk(node)):
                         acc.violation('C13/sequence-differs/Prout/'
                                       'embedded-ignores-later-input-values',
@@ -491,15 +652,16 @@ def run_shard(spec, acc):
                                        'input_values': repr(inval), 'driver': how,
                                        'via_' + how: got[:16], 'via_stream': o1[:16]})
                     elif bad:
-                        culprit = _indep_blame(node, rng)
+                        culprit = _indep_blame(node, rng, inval)
                         acc.violation(
+                            PWALK_ZERO_KEY if zero_walk(node) else
                             f"C13/streams-not-independent/{culprit or node[0]}/{bad}",
                             {'case': i, 'expression': text, 'fresh': got[:24],
                              'stream1': o1[:24], 'stream2': o2[:24],
                              'tb': short_tb(iexc) if iexc else None})
                 # -- an ended stream stays ended until reset() ---------------
                 stage = 'after-end'
-                if exc is None and exp_ended and not kind_bad:
+                if exc is None and exp_ended and not kind_bad and not zero_walk(node):
                     k_more = rng.randint(1, 3)
                     first, post, second, aexc = cb.after_end(
                         pat, N + 2, k_more, midway=rng.randint(1, 5), inval=inval)
@@ -551,12 +713,16 @@ def run_shard(spec, acc):
                     acc.count('after_end_poll_unproductive_operand')
                 continue
             mech = inval_mechanism(node, exp, exp_ended, how, inval) \
-                if stage == 'fresh' else None
+                if stage == 'fresh' and not zero_walk(node) else None
             if mech:
                 for key in mech:
                     acc.violation(key, {'case': i, 'expression': text,
                                         'input_values': repr(inval),
                                         'note': 'driver did not return in 10 s'})
+                continue
+            if zero_walk(node):
+                acc.violation(PWALK_ZERO_KEY, {'case': i, 'expression': text,
+                                               'note': 'driver did not return in 10 s'})
                 continue
             b = blame(node, leaves, limit=3)
             if b is not None:
@@ -598,7 +764,8 @@ def _resume_blame(node, leaves, k=RESUME_POLLS):
             return c
     try:
         with cb.time_limit(2):
-            first, post, second, exc = cb.after_end(cb.build(node), N + 2, k)
+            first, post, second, exc = cb.after_end(cb.build(node), N + 2, k,
+                                                    inval=CASE['inval'])
         if post:
             return node[0]
     except (cb.RealTimeout, Exception):
@@ -627,17 +794,19 @@ def _resumer_inside(node, leaves):
     return None
 
 
-def _indep_blame(node, rng):
+def _indep_blame(node, rng, inval=None):
     """Smallest sub-expression whose own two interleaved streams differ."""
     from vf import model_patterns as mp, c13_build as cb
     for sub in mp.subnodes(node):
-        c = _indep_blame(sub, rng)
+        c = _indep_blame(sub, rng, inval)
         if c:
             return c
     try:
         pat = cb.build(node)
-        fresh, ended, exc = cb.real_take(pat, N, 'iter')
-        (o1, o2), (d1, d2), iexc = cb.interleaved(pat, N, rng)
+        fresh, ended, exc = cb.real_take(pat, N, 'next', inval)
+        if exc is not None:
+            return None         # cannot run on its own (e.g. needs other input)
+        (o1, o2), (d1, d2), iexc = cb.interleaved(pat, N, rng, inval)
         if iexc is not None or compare(fresh, ended, o1, d1, None) \
                 or compare(fresh, ended, o2, d2, None):
             return node[0]
@@ -661,8 +830,8 @@ def _seeded_definition(rng, gen, leaves):
     if form == 'expr':
         for attempt in range(30):
             kind, cand = gen.gen_expr(rng)
-            if not any(n[0] == 'Pseed' for n in mp.walk(cand)):
-                continue
+            if not any(n[0] == 'Pseed' for n in mp.walk(cand)) or zero_walk(cand):
+                continue        # (steps=0: an unseeded random walk, see PWALK_ZERO_KEY)
             try:
                 exp, ended = mp.take(cand, N, leaves=leaves)
             except (mp.OutOfFuel, mp.OutOfDomain, LeafBroken, Exception):
